@@ -15,7 +15,31 @@ use report::Tier;
 #[global_allocator]
 static GLOBAL: alloc::Counting = alloc::Counting;
 
+/// Logging is part of the environment: a subscriber that enables every callsite (and throws the events
+/// away) makes the library evaluate the arguments of all its trace!/debug! statements, as it does for a user
+/// running with RUST_LOG=trace.  VERIF_TRACING=off runs without it.
+struct EnableAll;
+impl tracing::Subscriber for EnableAll {
+    fn enabled(&self, _: &tracing::Metadata<'_>) -> bool { true }
+    fn new_span(&self, _: &tracing::span::Attributes<'_>) -> tracing::span::Id { tracing::span::Id::from_u64(1) }
+    fn record(&self, _: &tracing::span::Id, _: &tracing::span::Record<'_>) {}
+    fn record_follows_from(&self, _: &tracing::span::Id, _: &tracing::span::Id) {}
+    fn event(&self, e: &tracing::Event<'_>) {
+        // visit the fields so that lazily formatted values are formatted, too
+        struct V;
+        impl tracing::field::Visit for V {
+            fn record_debug(&mut self, _: &tracing::field::Field, v: &dyn std::fmt::Debug) { let _ = format!("{v:?}"); }
+        }
+        e.record(&mut V);
+    }
+    fn enter(&self, _: &tracing::span::Id) {}
+    fn exit(&self, _: &tracing::span::Id) {}
+}
+
 fn main() {
+    if std::env::var("VERIF_TRACING").ok().as_deref() != Some("off") {
+        let _ = tracing::subscriber::set_global_default(EnableAll);
+    }
     let args: Vec<String> = std::env::args().collect();
     if args.len() < 2 {
         eprintln!("usage: mc <Cxx> [--tier quick|thorough] [--replay file]");
